@@ -179,6 +179,33 @@ def main(tier, seed, replay=None):
             dist["kinds"][k] = dist["kinds"].get(k, 0) + v
         dist["vars"][len(d["scope"])] = dist["vars"].get(len(d["scope"]), 0) + 1
         dist["nodes"] += d["nodes"]
+    # histories: the same OBJECT queried, trained with EM, and queried again must answer from its CURRENT parameters
+    # (the model table of the second query is rebuilt from the parameters after training)
+    nh = 0
+    for i in range(0 if replay else (8 if tier == "quick" else 60)):
+        from deeprob.spn.structure.node import assign_ids as _aid
+        nvh = int(rs.randint(1, 5))
+        root = G.rand_circuit(rs, list(range(nvh)), kinds=[("gauss",), ("gauss", "bern"), ("gauss", "unif", "bern")][i % 3], clt=0.0, share=0.35)
+        _aid(root)
+        try:
+            impl_outputs(root)
+            from deeprob.spn.learning.em import expectation_maximization
+            from deeprob.spn.algorithms.sampling import sample
+            width = max(int(v) for v in root.scope) + 1
+            np.random.seed(int(rs.randint(1 << 30)))
+            data = sample(root, np.full((60, width), np.nan, dtype=np.float32))
+            import io as _io, contextlib as _cl
+            with _cl.redirect_stdout(_io.StringIO()), np.errstate(all="ignore"):
+                expectation_maximization(root, data, num_iter=2, batch_perc=0.5, step_size=0.5, random_init=False,
+                                         random_state=int(rs.randint(1 << 30)), verbose=False)
+            tab = G.Table(root); out = impl_outputs(root)
+        except Exception as e:
+            dist.setdefault("history_skipped", []).append(f"{type(e).__name__}: {e}"[:80])
+            continue                                              # EM may refuse a circuit: not this property
+        if any(not math.isfinite(x) for m in out["moms"] for x in m):
+            continue
+        roots.append((root, tab, out)); nh += 1
+    dist["queried_trained_queried_again"] = nh
     rep.cov["input_distribution"] = dist
     # scale: well-conditioned variables of tiny variance (the exact-rational tie above runs at unit scale only)
     if not replay:
